@@ -207,6 +207,8 @@ def _write(det, bucket: str, arr) -> None:
         det.signal.array = arr
     elif bucket == "image":
         det.image.array = arr
+    elif bucket == "phase":
+        det.phase.array = arr
     else:
         raise ValueError(bucket)
 
